@@ -42,6 +42,68 @@ func (p prefixReader) ReadHashes(ix []int64) ([]tlog.Hash, error) {
 	return p.lg.ReadHashes(ix)
 }
 
+func failingAppends(r *fw.Run) {
+	l := fw.NewLocal()
+	defer r.Merge(l)
+	N := r.Pick(40, 100)
+	r.Bounds["failing_append_histories_up_to"] = N
+	A, errA := tlogx.Build(tlogx.Pattern(0, N))
+	B, errB := tlogx.Build(tlogx.Pattern(2, N+3))
+	if errA != nil || errB != nil {
+		r.Violation("failing:build", "clean build failed", nil)
+		return
+	}
+	good := func(lg *tlogx.Log, n int64) tlog.HashReader {
+		return prefixReader{lg, tlog.StoredHashCount(n)}
+	}
+	bad := func(lg *tlogx.Log, n int64, mode int) tlog.HashReader {
+		return tlog.HashReaderFunc(func(ix []int64) ([]tlog.Hash, error) {
+			hs, err := good(lg, n).ReadHashes(ix)
+			if err != nil {
+				return nil, err
+			}
+			switch mode {
+			case 0:
+				return nil, fmt.Errorf("injected read error")
+			case 1:
+				if len(hs) > 0 {
+					return hs[:len(hs)-1], nil
+				}
+				return nil, fmt.Errorf("injected read error")
+			default:
+				return append(hs, hs...), nil
+			}
+		})
+	}
+	check := func(name string, lg *tlogx.Log, n int64, hist string) {
+		l.Execs++
+		l.Transitions++
+		hs, err := tlog.StoredHashes(n, lg.Records[n], good(lg, n))
+		base := tlog.StoredHashCount(n)
+		ok := err == nil && int64(len(hs)) == tlog.StoredHashCount(n+1)-base
+		for i := 0; ok && i < len(hs); i++ {
+			ok = hs[i] == lg.Store[base+int64(i)]
+		}
+		if !ok {
+			r.Violation(fmt.Sprintf("failing:%s:%d:%s", name, n, hist), fmt.Sprintf("%s: StoredHashes for record %d of log %s returned hashes that differ from a clean build of that log (err=%v)", hist, n, name, err), caseT{Kind: "failing", N: n, Text: hist})
+		}
+	}
+	for n := int64(0); n < int64(N); n++ {
+		for mode := 0; mode < 3; mode++ {
+			for _, m := range []int64{n, n + 1, n + 2, n + 3} {
+				l.States++
+				hist := fmt.Sprintf("after a failed call (mode %d) for record %d of log A", mode, n)
+				l.Execs++
+				if _, err := tlog.StoredHashes(n, A.Records[n], bad(A, n, mode)); err == nil && n > 0 && tlog.StoredHashCount(n+1)-tlog.StoredHashCount(n) > 1 {
+					r.Violation(fmt.Sprintf("failing:accepted:%d:%d", n, mode), fmt.Sprintf("StoredHashes(%d) succeeded although the reader failed (mode %d)", n, mode), caseT{Kind: "failing", N: n})
+				}
+				check("B", B, m, hist)
+				check("A", A, n, hist+" and an append to log B")
+			}
+		}
+	}
+}
+
 // hugeLogs checks TreeHash, ProveRecord/CheckRecord and ProveTree/CheckTree on logs of identical
 // records with sizes around every power of two up to 2^62 and with sparse and dense bit patterns.
 func hugeLogs(r *fw.Run) {
@@ -426,6 +488,12 @@ func Run(r *fw.Run) {
 	// unchanged, and the same call repeated gives the same (correct) result.
 	aliasing(r)
 
+	// append histories with failing readers: two logs are grown in turn; before every append the same call
+	// is first made with a reader that fails (an error, or one hash too few), then another log is appended
+	// to, then the call is repeated with a good reader. Every successful call must return exactly the
+	// hashes a clean build of that log has at those positions.
+	failingAppends(r)
+
 	// virtual huge logs: a log whose records are all identical has one hash per level, so a HashReader for
 	// a log of up to 2^62 records and the RFC 6962 tree hash of any size can be computed without storing it
 	hugeLogs(r)
@@ -611,6 +679,8 @@ func Replay(r *fw.Run, raw json.RawMessage) {
 		aliasing(r)
 	case "huge":
 		hugeLogs(r)
+	case "failing":
+		failingAppends(r)
 	case "recordhash":
 		r.Note("record-hash cases are re-run by the full check")
 	case "coord":
